@@ -152,6 +152,8 @@ def oracle(line, impl):
         return None
     _, vals, hosts = p
     if impl.startswith("reject:"):
+        if impl == "reject:exception:multi-dot" and multi_dot(vals):
+            return None   # a tree carrying the candidate fix refuses values that begin with two dots (they denote no host name)
         return "a well-formed domain list was refused: " + impl
     w = impl.split(" ")
     if len(w) != 5 or w[0] != "ok":
@@ -428,15 +430,25 @@ def cases(rng, tier):
         yield mk(vals, derived_hosts(rng, vals, 2))
     # ---- values that begin with two dots (known finding C41-multi-dot-value): few, and at most two that make the harness die
     dying = 0
-    for _ in range(60 if thorough else 25):
+    for i in range(60 if thorough else 24):
         vals = label_tree_values(rng, rng.range(1, 4))
-        i = rng.below(len(vals))
-        vals[i] = b"." * rng.range(1, 2) + (vals[i] if vals[i][:1] == b"." else b"." + vals[i])
+        root = vals[0].lstrip(b".") or b"a"
+        k = i % 4
+        if k == 0:      # the plain name is dropped as "covered by" the two-dot value
+            vals = [root, b".." + root] + vals[1:]
+        elif k == 1:    # both dot-only values are stored; an earlier lookup decides whether `x.` is found
+            vals = [b"..", b"."] + [v for v in vals[1:] if not v.endswith(b".")]
+        elif k == 2:    # a stored two-dot value cannot be found for removal: use-after-free
+            vals = [b".." + root, b"." + root] + vals[1:]
+        else:
+            j = rng.below(len(vals))
+            vals[j] = b"." * rng.range(1, 2) + (vals[j] if vals[j][:1] == b"." else b"." + vals[j])
         if hangs(vals):
             if dying >= 2:
                 continue
             dying += 1
-        yield mk(vals, derived_hosts(rng, vals, 2))
+        hosts = [root, rand_label(rng), rand_label(rng) + b"."] + derived_hosts(rng, vals, 2)
+        yield mk(vals, hosts)
 
 
 def exhaustive(tier):
